@@ -52,6 +52,7 @@ const (
 	mLock
 	mUnlock
 	mStamp
+	mChoose
 	mDone
 )
 
@@ -174,6 +175,8 @@ type Sched struct {
 	Switches int
 	switchH  uint64
 	pctChg   []int
+	// MapChoices counts tape-decided map iteration orders.
+	MapChoices int
 	// Contended counts lock attempts that found the lock held by another task.
 	Contended int
 	// vector clocks (controller only)
@@ -211,6 +214,11 @@ func (s *Sched) Current() *Task { return s.cur }
 
 //go:norace
 func (t *Task) body() {
+	// Grow the stack once, before the run: a stack that grows during the run is
+	// copied and the old memory handed to another goroutine, which would make
+	// addresses of stack-allocated structures ambiguous for the vector-clock
+	// check (the GC is off during a run, so stacks do not shrink either).
+	growStack(64)
 	raceDisable()
 	<-t.wake
 	raceEnable()
@@ -264,6 +272,17 @@ func (s *Sched) Access(field string, addr uintptr, write bool, site string) {
 		return
 	}
 	s.handoff(msg{kind: mYield, ekind: KAccess, obj: field, site: site, key: addr, write: write})
+}
+
+// Choose asks the controller for a tape-drawn value in [0,n) without giving up
+// the processor (map iteration order of the code under test).
+//
+//go:norace
+func (s *Sched) Choose(n int) int {
+	if !s.Active() || n <= 1 {
+		return 0
+	}
+	return int(s.handoff(msg{kind: mChoose, key: uintptr(n)}))
 }
 
 // Stamp logs an event without giving up the processor and returns its global
@@ -459,6 +478,10 @@ func (s *Sched) Run() {
 				s.log(m.task, KEnd, m.task.Name, "")
 				// a finished task still owning locks is a bug of the code under test
 				break inner
+			case mChoose:
+				v := s.T.Draw(int(m.key))
+				s.MapChoices++
+				s.resumeWith(m.task, uint64(v))
 			case mStamp:
 				// logged, the task continues immediately
 				s.log(m.task, m.ekind, m.obj, m.site)
@@ -553,6 +576,13 @@ func (s *Sched) vcAccess(m msg) {
 }
 
 //go:norace
+func (s *Sched) resumeWith(t *Task, v uint64) {
+	raceDisable()
+	t.wake <- v
+	raceEnable()
+}
+
+//go:norace
 func (s *Sched) resume(t *Task) {
 	raceDisable()
 	t.wake <- s.seq
@@ -568,6 +598,16 @@ func (s *Sched) recv() msg {
 }
 
 //go:norace
+//go:noinline
+func growStack(n int) byte {
+	var pad [8192]byte
+	pad[n%len(pad)] = byte(n)
+	if n > 0 {
+		return growStack(n-1) + pad[(n*7)%len(pad)]
+	}
+	return pad[0]
+}
+
 func itoa(n int) string {
 	if n == 0 {
 		return "0"
